@@ -8,6 +8,7 @@
 (* next state of obj / tf):                                                *)
 (*   rt     the value copied into an empty object (C04, C19)               *)
 (*   chain  tf is the product of CopyTo calls on an initially empty object *)
+(*          or on a plan that was echoed (C08) -- a fully-known earlier state*)
 (*   last   source of the preceding CopyTo (idempotence, C09)              *)
 (*   echo   plan / decoded struct / echoed plan of the apply cycle (C08)   *)
 (*   memo   payload-free skeleton of the input |-> result (C05 pairwise)   *)
@@ -63,7 +64,8 @@ Judge(e, W, M, tt, aux, x) ==
                  \cup {p \in {"C06"} : reduced /\ p \in W}
                  \cup {p \in {"C17"} : p \in W /\ HasCustom(M)},
            aux |-> [aux EXCEPT !.rt = IF fromEmpty /\ ~x.pn THEN [armed |-> TRUE, orig |-> x.pobj] ELSE NoRT,
-                               !.chain = @ /\ ~x.pn /\ ~HasError(x.dg),
+                               \* the echo of a plan leaves a fully-known state as well (what a later refresh meets)
+                               !.chain = (@ \/ echoing) /\ ~x.pn /\ ~HasError(x.dg),
                                !.lastArmed = ~x.pn, !.lastObj = x.pobj,
                                !.echo = IF echoing /\ ~x.pn THEN [@ EXCEPT !.st = 3, !.back = x.tf] ELSE NoEcho]]
     [] e = "CopyFrom" ->
